@@ -21,18 +21,18 @@
    Two variants of the code are modelled:
      Current = the tree with fixes/C06-atomic-claim.diff and fixes/C06-create-rollback-main-record.diff applied
               and with the per-client quota admission marker of commit 6d9c096 (fixes/C17-quota-per-client-admission.diff):
-              SetNX tunnox:runtime:conncode:admit:mappings:<listen client> right before the quota scan, Delete when
+              SetNX on the admission-marker key of the listen client (KeyPrefixRuntimeConnectionCodeAdmission + "mappings:<client>") right before the quota scan, Delete when
               the activation ends with any outcome (deferred; runs after the deferred claim release)
      Pinned  = the tree as found (no claim; no admission marker; main record left behind when the global-list append fails).
    The three repairs are independent flags of `cfg`, so intermediate trees are described as well. *)
 From Coq Require Import List Arith NArith Bool.
 Import ListNotations.
 
-Record cfg := { use_claim : bool; create_cleanup : bool; use_admit : bool;
+Record cfg := { use_claim : bool; create_cleanup : bool; use_adm : bool;
                 purge_revoked : bool   (* NOT a tree variant: the listing's clean-up also purges revoked codes (refuted below) *) }.
-Definition Current : cfg := {| use_claim := true; create_cleanup := true; use_admit := true; purge_revoked := false |}.
-Definition Pinned : cfg := {| use_claim := false; create_cleanup := false; use_admit := false; purge_revoked := false |}.
-Definition PurgeRevoked : cfg := {| use_claim := true; create_cleanup := true; use_admit := true; purge_revoked := true |}.
+Definition Current : cfg := {| use_claim := true; create_cleanup := true; use_adm := true; purge_revoked := false |}.
+Definition Pinned : cfg := {| use_claim := false; create_cleanup := false; use_adm := false; purge_revoked := false |}.
+Definition PurgeRevoked : cfg := {| use_claim := true; create_cleanup := true; use_adm := true; purge_revoked := true |}.
 
 (* static scenario parameters *)
 Record params := {
@@ -59,7 +59,7 @@ Record sh := {
   by_code : option crec;
   by_id : option crec;
   claim : bool;                  (* ...:claim:<code> present *)
-  admk : list N;                (* ...:admit:mappings:<client> present (30 s TTL, independent of the code's expiry) *)
+  admk : list N;                (* admission marker of <client> (scope "mappings") present (30 s TTL, independent of the code's expiry) *)
   mains : list mrec;             (* tunnox:port_mapping:<id> *)
   glob : list nat;               (* tunnox:mappings:list (ids of the entries) *)
   cidx : list (N * nat);         (* tunnox:client_mappings:<client> entries *)
@@ -73,7 +73,7 @@ Inductive res := ROk (m : nat) | RRevoked | RGone | RTick | RErr (e : N) | RUnmo
 Inductive pc :=
 | PGet | PQuota | PClaim | PMain | PGlob | PCleanup | PIdxL | PIdxT | PUpdCode | PUpdId
 | PRbL | PRbT | PRbGlob | PRbMain | PRelease (e : N) | PDelGet | PDone (r : res)
-| PAdmit                 (* parked at SetNX admission marker *)
+| PAdm                 (* parked at SetNX admission marker *)
 | PRelAdm (r : res)      (* parked at Delete admission marker; r is what the call then returns *)
 (* ListConnectionCodesByTargetClient (its first call, GetList of the target's index, is PGet of a KList thread) *)
 | PLGet                  (* repo.ListByTargetClient: GetByID of the indexed id *)
@@ -118,7 +118,7 @@ Definition set_cidx (s : sh) (c : list (N * nat)) : sh :=
   {| expired := expired s; by_code := by_code s; by_id := by_id s; claim := claim s; admk := admk s; mains := mains s; glob := glob s; cidx := c; tidx := tidx s |}.
 Definition set_tidx (s : sh) (b : bool) : sh :=
   {| expired := expired s; by_code := by_code s; by_id := by_id s; claim := claim s; admk := admk s; mains := mains s; glob := glob s; cidx := cidx s; tidx := b |}.
-Definition set_admit (s : sh) (a : list N) : sh :=
+Definition set_adm (s : sh) (a : list N) : sh :=
   {| expired := expired s; by_code := by_code s; by_id := by_id s; claim := claim s; admk := a; mains := mains s; glob := glob s; cidx := cidx s; tidx := tidx s |}.
 
 (* one forward write: does it fail, and the remaining fault budget *)
@@ -151,9 +151,9 @@ Section Step.
 
   (* where a failed activation / revocation goes once nothing of it is left: release the claim if one is held *)
   (* how an activation returns r once it holds the admission marker: the deferred ReleaseAdmission runs last *)
-  Definition fin (r : res) : pc := if use_admit C then PRelAdm r else PDone r.
+  Definition fin (r : res) : pc := if use_adm C then PRelAdm r else PDone r.
   Definition leave (e : N) : pc := if use_claim C then PRelease e else fin (RErr e).
-  Definition admitted (s : sh) (l : N) : bool := existsb (N.eqb l) (admk s).
+  Definition adm_held (s : sh) (l : N) : bool := existsb (N.eqb l) (admk s).
 
   Definition act_step (l la : N) (la_ok : bool) (t : lo) (s : sh) : lo * sh :=
     let me := l_me t in
@@ -166,14 +166,14 @@ Section Step.
             else if c_act r then (finish t (RErr EConflict), s)
             else if expired s then (finish t (RErr EExpired), s)
             else if negb la_ok then (finish t (RErr EInvalid), s)
-            else (set_pc (set_snap t r) (if use_admit C then PAdmit else PQuota), s)
+            else (set_pc (set_snap t r) (if use_adm C then PAdm else PQuota), s)
         end
-    | PAdmit =>                                         (* admitClient: SetNX admission marker of the listen client *)
+    | PAdm =>                                         (* the service's admission helper: SetNX admission marker of the listen client *)
         let '(f, fl) := tick_fault (l_fault t) in
         let t := set_fault t fl in
         if f then (finish t (RErr EStorage), s)
-        else if admitted s l then (finish t (RErr EConflict), s)      (* same client already being admitted *)
-        else (set_pc t PQuota, set_admit s (l :: admk s))
+        else if adm_held s l then (finish t (RErr EConflict), s)      (* same client already in admission *)
+        else (set_pc t PQuota, set_adm s (l :: admk s))
     | PQuota =>                                         (* GetClientPortMappings + quota *)
         if p_qmax P <=? quota_count P s l then (set_pc t (fin (RErr EQuota)), s)
         else if use_claim C
@@ -226,7 +226,7 @@ Section Step.
     | PRbGlob => (set_pc t PRbMain, set_glob s (filter (fun i => negb (Nat.eqb i me)) (glob s)))
     | PRbMain => (set_pc t (leave (l_err t)), del_main s me)
     | PRelease e => (set_pc t (fin (RErr e)), set_claim s false)
-    | PRelAdm r => (finish t r, set_admit s (filter (fun c => negb (N.eqb c l)) (admk s)))   (* ReleaseAdmission *)
+    | PRelAdm r => (finish t r, set_adm s (filter (fun c => negb (N.eqb c l)) (admk s)))   (* ReleaseAdmission *)
     | PDelGet => (finish t RUnmodelled, s)
     | PDone _ => (t, s)
     | _ => (finish t RUnmodelled, s)
@@ -333,7 +333,7 @@ Definition pc_code (p : pc) : nat :=
   match p with
   | PGet => 1 | PQuota => 2 | PClaim => 3 | PMain => 4 | PGlob => 5 | PIdxL => 6 | PIdxT => 7
   | PUpdCode => 8 | PUpdId => 9 | PRbL => 10 | PRbT => 11 | PRbGlob => 12 | PRbMain => 13 | PCleanup => 13
-  | PRelease _ => 14 | PDelGet => 15 | PAdmit => 16 | PRelAdm _ => 17 | PDone _ => 0
+  | PRelease _ => 14 | PDelGet => 15 | PAdm => 16 | PRelAdm _ => 17 | PDone _ => 0
   | PLGet => 15 | PLRm => 21 | PPGet => 15 | PPDelCode => 18 | PPDelId => 19 | PPDelClaim => 14 | PPRmIdx => 21
   end.
 
